@@ -84,6 +84,9 @@ WeekdaySels ==
 TimeSels ==
   {<<Sp(Fx(600), Fx(720))>>, <<Sp(Fx(0), Fx(1440))>>, <<Sp(Fx(540), Fx(1440))>>, <<Sp(Fx(1320), Fx(120))>>, <<Sp(Fx(480), Fx(1560))>>,
    <<Sp(Fx(545), Fx(1005))>>, <<Sp(Fx(1440), Fx(1500))>>, <<Sp(Fx(60), Fx(2880))>>, <<Sp(Fx(600), Fx(600))>>,
+   \* several spans in one rule: nested, overlapping, touching, and one passing midnight over a span of the small hours
+   <<Sp(Fx(600), Fx(1200)), Sp(Fx(720), Fx(840))>>, <<Sp(Fx(600), Fx(840)), Sp(Fx(720), Fx(1080))>>, <<Sp(Fx(600), Fx(720)), Sp(Fx(720), Fx(840))>>,
+   <<Sp(Fx(1320), Fx(120)), Sp(Fx(60), Fx(180))>>, <<Sp(Fx(720), Fx(840)), Sp(Fx(600), Fx(1200)), Sp(Fx(1140), Fx(1260))>>,
    <<Sp(Fx(480), Fx(720)), Sp(Fx(840), Fx(1080))>>, <<Sp(Fx(480), Fx(720)), Sp(Fx(840), Fx(1080)), Sp(Fx(1200), Fx(1320))>>,
    <<Sp(Ev("sunrise", 0), Ev("sunset", 0))>>, <<Sp(Ev("dawn", 0), Fx(720))>>, <<Sp(Fx(720), Ev("dusk", 0))>>,
    <<Sp(Ev("sunrise", 60), Ev("sunset", -30))>>, <<Sp(Ev("dusk", -90), Fx(1500))>>,
